@@ -208,7 +208,15 @@ def run_multi(rng, obs):
     except (ZeroDivisionError, OverflowError, ValueError):
         obs.skip('rhs undefined at x'); return
     if not all(map(math.isfinite, fs)): obs.skip('rhs not finite'); return
-    c = compile_constraint(text, variables, n)
+    if len(lines) >= 2 and rng.random() < 0.35:
+        # the same relations handed over as a TUPLE of texts (groups of one or more lines): every relation of every group is enforced
+        cut = sorted(rng.sample(range(1, len(lines)), rng.randint(1, len(lines) - 1)))
+        groups = ['\n'.join(lines[a:b]) for a, b in zip([0] + cut, cut + [len(lines)])]
+        from mystic.symbolic import generate_constraint, generate_solvers
+        c = generate_constraint(generate_solvers(tuple(groups), variables=variables, nvars=n))
+        obs.desc['groups'] = groups; obs.event('tuple_of_texts')
+    else:
+        c = compile_constraint(text, variables, n)
     y = [float(v) for v in c(list(x))]
     viol = 0
     for (i, cmp, rhs), f in zip(specs, fs):
